@@ -73,11 +73,28 @@ fn agg_ops(len: usize, alpha: &[X]) -> Vec<AggOp> {
 /// (a) the encoding relation on one word
 fn check_encodings(word: &[u8], alpha: &[X], ctx: &mut Ctx) {
     let x = decode(word, alpha);
+    check_encodings_x("encodings", word, x, alpha, ctx)
+}
+
+/// the encoding relation on long structured series with null blocks / periodic nulls (DESIGN 5.14)
+fn encodings_long(thorough: bool, threads: usize, alpha: &[X]) -> Ctx {
+    let lens: Vec<usize> = if thorough { vec![24, 40, 70] } else { vec![24] };
+    let mut items: Vec<(String, Vec<X>)> = vec![];
+    for len in lens {
+        items.extend(structured_shapes(len, true).into_iter().filter(|(_, x)| x.iter().any(|v| v.is_none())));
+    }
+    par_items(&items, threads, |(_label, x), ctx| {
+        ctx.states += 1;
+        ctx.transitions += 1;
+        check_encodings_x("encodings-long", &[], x.clone(), alpha, ctx)
+    })
+}
+
+fn check_encodings_x(fam: &str, word: &[u8], x: Vec<X>, alpha: &[X], ctx: &mut Ctx) {
     let len = x.len();
-    let fam = "encodings";
     ctx.fam(fam).states += 1;
     if x.iter().any(|v| v.is_none()) {
-        ctx.nontrivial(fam, hash_bytes(word));
+        ctx.nontrivial(fam, mix(hash_bytes(word), hash_u64s(&x.iter().map(|v| v.map_or(7, |a| a.to_bits())).collect::<Vec<_>>())));
     }
     // rolling: groups of instantiations that must agree after decoding
     let groups: Vec<Vec<Ty1>> = vec![
@@ -396,6 +413,7 @@ fn main() {
         let word = syms_from_json(&stored["case"]["word"]);
         match stored["case"]["family"].as_str().unwrap_or("") {
             "encodings" => check_encodings(&word, &enc.alpha, &mut ctx),
+            "encodings-long" => check_encodings_x("encodings-long", &[], word_from_json(&stored["case"]["series"]), &enc.alpha, &mut ctx),
             "transparency" => check_transparency(&word, &tr.alpha, 3, &mut ctx),
             _ => check_transparency2(&word, &tr2.alpha, &mut ctx),
         }
@@ -404,10 +422,11 @@ fn main() {
     let mut total = explore_tree(&enc, run.threads);
     total.merge(explore_tree(&tr, run.threads));
     total.merge(explore_tree(&tr2, run.threads));
+    total.merge(encodings_long(!run.quick(), run.threads, &enc.alpha));
     total.sample(json!({"relation": "encoding", "entry": "ts_vstd", "series_f64": "[NaN, 1.0, 3.0]", "series_option": "[None, Some(1.0), Some(3.0)]", "outputs_equal_after_decoding": true}));
     total.sample(json!({"relation": "transparency", "op": "vskew(0)", "base": [-2, 0, 3], "with_nulls": [null, -2, 0, null, 3], "equal": true}));
     let meta = Meta {
-        rule: "(a) encoding relation: every word over the value alphabet; every null-aware rolling entry point (reduced (w, mp) band), mapping operation and aggregation is run on Vec<f64> (NaN) and Vec<Option<f64>> (None) with outputs f64 / Option<f64> / f32 / Option<i32>; outputs must be identical after decoding (None ~ NaN). (b) null transparency: every null-free base word and every placement of 1..k nulls into its gaps (all multisets of gaps): count_valid, sums, moments, extrema, first / last, quantiles (grid x 4 methods), median, percentile-of-score are unchanged and count_none grows by k; two-series: extra positions with a null in the first, second or both series leave vcov / vcorr_pearson unchanged. Exact comparison. Non-trivial (a) = words containing a null; (b) = every base word.".into(),
+        rule: "(a) encoding relation: every word over the value alphabet; every null-aware rolling entry point (reduced (w, mp) band), mapping operation and aggregation is run on Vec<f64> (NaN) and Vec<Option<f64>> (None) with outputs f64 / Option<f64> / f32 / Option<i32>; outputs must be identical after decoding (None ~ NaN); the same on long structured series (24..70 elements) with null blocks and periodic null patterns. (b) null transparency: every null-free base word and every placement of 1..k nulls into its gaps (all multisets of gaps): count_valid, sums, moments, extrema, first / last, quantiles (grid x 4 methods), median, percentile-of-score are unchanged and count_none grows by k; two-series: extra positions with a null in the first, second or both series leave vcov / vcorr_pearson unchanged. Exact comparison. Non-trivial (a) = words containing a null; (b) = every base word.".into(),
         bounds: json!({"encodings": {"alphabet": json_word(&enc.alpha), "L": enc.max_len}, "transparency": {"alphabet": json_word(&tr.alpha), "L": tr.max_len, "nulls_inserted": format!("1..={}", tr.max_nulls)}, "transparency_pairs": {"alphabet": json_word(&tr2.alpha), "L": tr2.max_len, "extra_positions": "1..=2 x {null in first, second, both}"}}),
         assumptions: vec!["canonical nulls only; Some(NaN) is never generated (DESIGN 5.4)".into(), "a call that panics under both encodings (documented or known panic) counts as equal".into()],
         exhaustive: true,
